@@ -4,15 +4,19 @@ import random
 from harness import dbg, initstr, isa, proggen, progrun, pyint
 
 ID = "C02"
-MODULES = ["HeraProofs.Props.C02"]
+MODULES = ["HeraProofs.Props.C02", "HeraProofs.Props.C02b"]
 GENERATED_DEPS = ["Ops.lean", "Tables.lean", "Exec.lean"]
 EXPLANATION = ("Theorems over the regenerated code: C01_step (every instruction keeps WF), C02_fetch/C02_exit_ends "
                "(guards regenerated from VirtualMachine.run: nothing is fetched outside the program and the run ends), "
                "C02_reset_WF + C02_init (--init), data statements, C02_run_WF (every point of every run of a checked "
                "program). Run-loop model corresponded by the prog stream; WF monitor after every executed operation of "
-               "real runs; debugger write histories watched by the same monitor (implementation-level oracle).")
+               "real runs. Debugger write paths (C02b): C02_assign_mem_WF (address and value through to_u16: WF for every value of "
+               "the expression language), C02_assign_pc (negative refused), C02_assign_reg_WF (WF for every non-negative value), "
+               "C02_assign_reg_negative (a negative value is stored as it is: the known finding KF-C02-1 stated exactly); the "
+               "assignment commands of the debugger model are corresponded by the dbgmodel stream (C11-C13), and debugger write "
+               "histories are watched by the WF monitor.")
 ASSUMPTIONS = ["programs contain no user __eval (the Tiger library's own helpers are exercised by the monitor only)",
-               "debugger histories: covered by the monitor oracle; the Lean theorem for debugger writes is part of C13/C14's shell model",
+               "debugger histories: assignments proved (C02b) over Model/Debugger.lean's assignReg/assignMem/assignPc with right-hand sides in the range of C14_eval_range; `execute <op>` goes through the same Gen.exec as a run (C01_step); the shell's parsing of the command is oracle-covered",
                "code.length <= 65535 (CALL stores pc+1)"]
 TRUSTED_EXTRA = ["hand model Model/Run.lean of VirtualMachine.run (shape of run checked by the generator; corresponded by stream prog)",
                  "hand model Model/Cli.lean of parse_init_string and PyStr.parseInt of int() (corresponded: initstr, pyint exhaustive to length 4)"]
